@@ -1,11 +1,55 @@
-import PersimVerif.Model.Rows
-import PersimVerif.Spec.Matching
+import PersimVerif.Lemmas.RowsSound
 
+/-!
+# C06 — returned matchings certify the reported bottleneck / Wasserstein distance
+
+Part 1 (this section): the certificate checker `Rows.checkRows` is sound against the
+partial-matching specification `Spec.PM`.  Nothing here depends on how the rows were produced.
+-/
 namespace PersimVerif.C06
 open PersimVerif.Rows PersimVerif.Spec
 
-/-- the distance component does not depend on the `matching` flag (bottleneck) -/
-theorem matching_flag_irrelevant_bn {α : Type} (bdist : α) (M N : Nat) (D : Nat → Nat → Option α) (σ : List Nat) :
-    (bnReturn true bdist M N D σ).1 = (bnReturn false bdist M N D σ).1 := rfl
+/-- the largest pairing cost of `p` is exactly `d`: some point pays `d` (together with
+    `p.MaxLE c u v d` this says "the matching `p` has bottleneck cost `d`") -/
+def AttainsMax {M N K : Type} (p : PM M N) (c : M → N → K) (u : M → K) (v : N → K) (d : K) : Prop :=
+  (∃ i, p.rowCost c u i = d) ∨ (∃ j, p.g j = none ∧ v j = d)
+
+section Core
+variable {K : Type} {M N : Nat} (c : Fin M → Fin N → K) (u : Fin M → K) (v : Fin N → K)
+
+/-- index-level soundness, bottleneck.  `0 ≤` costs (that is `b ≤ d` for every point) is used for
+    one thing only: `MaxLE` demands `0 ≤ d`, and `d` is the third entry of some row. -/
+theorem checkCore_sound_bn [LinearOrder K] [Zero K] {rows : List (Row K)} {d : K}
+    (hc0 : ∀ i j, 0 ≤ c i j) (hu0 : ∀ i, 0 ≤ u i) (hv0 : ∀ j, 0 ≤ v j)
+    (h : checkCore M N c u v rows = true) (hd : rowsMax rows = some d) :
+    ∃ p : PM (Fin M) (Fin N), p.MaxLE c u v d ∧ AttainsMax p c u v d := by
+  simp only [checkCore, Bool.and_eq_true] at h
+  obtain ⟨hs, hc⟩ := h
+  obtain ⟨t, hi, hj⟩ := exists_table rows hs
+  have hc' : ∀ a : Fin rows.length, expected M N c u v (t.ri a) (t.rj a) = some rows[a].cost := by
+    intro a; rw [hi, hj]; exact (costsExact_iff c u v rows).mp hc _ (List.getElem_mem a.2)
+  obtain ⟨⟨r, hr, rfl⟩, hle⟩ := (rowsMax_eq_some_iff rows d).mp hd
+  obtain ⟨a, ha, rfl⟩ := List.getElem_of_mem hr
+  have h0 : 0 ≤ rows[a].cost := by
+    rcases expected_cases c u v (hc' ⟨a, ha⟩) with ⟨x, y, _, _, e⟩ | ⟨x, _, _, e⟩ | ⟨y, _, _, e⟩
+    · exact e ▸ hc0 x y
+    · exact e ▸ hu0 x
+    · exact e ▸ hv0 y
+  exact ⟨t.toPM, t.maxLE c u v _ hc' h0 (fun b => hle _ (List.getElem_mem b.2)),
+    t.attains c u v _ hc' ⟨a, ha⟩⟩
+
+/-- index-level soundness, Wasserstein: the sum of the third entries IS the total cost of the
+    matching the rows describe (every point in exactly one row; no diagonal–diagonal row). -/
+theorem checkCore_sound_ws [AddCommMonoid K] [DecidableEq K] {rows : List (Row K)}
+    (h : checkCore M N c u v rows = true) :
+    ∃ p : PM (Fin M) (Fin N), p.sumCost c u v = rowsSum rows := by
+  simp only [checkCore, Bool.and_eq_true] at h
+  obtain ⟨hs, hc⟩ := h
+  obtain ⟨t, hi, hj⟩ := exists_table rows hs
+  have hc' : ∀ a : Fin rows.length, expected M N c u v (t.ri a) (t.rj a) = some rows[a].cost := by
+    intro a; rw [hi, hj]; exact (costsExact_iff c u v rows).mp hc _ (List.getElem_mem a.2)
+  exact ⟨t.toPM, by rw [t.sum_eq c u v _ hc', rowsSum_eq_sum_fin]⟩
+
+end Core
 
 end PersimVerif.C06
